@@ -48,6 +48,60 @@ def Cell.define : Cell → G → Except Nat Cell
 theorem c12_define_once (g1 g2 : G) :
     (Cell.empty.define g1).bind (fun c => c.define g2) = .error 77 := rfl
 
+/-- what a program does with ONE `Recursive` handle and its clones (all of them share the cell): define it, parse through it -/
+inductive HOp where
+  | define (g : G)
+  | parse (toks : List Nat)
+
+inductive HOut where
+  | defined
+  | refused (code : Nat)
+  | parsed (r : TopOut)
+
+def Cell.defs : Cell → List G
+  | .empty => []
+  | .defined g => [g]
+
+def hstep (n : Nat) (env : Env) (m : Mode) (c : Cell) : HOp → Cell × HOut
+  | .define g => match c.define g with
+    | .ok c' => (c', .defined)
+    | .error w => (c, .refused w)
+  | .parse toks => (c, .parsed (parseTop n { env with toks := toks, defs := c.defs } m (.call 0)))
+
+def hrun (n : Nat) (env : Env) (m : Mode) : Cell → List HOp → List HOut
+  | _, [] => []
+  | c, op :: ops => (hstep n env m c op).2 :: hrun n env m (hstep n env m c op).1 ops
+
+/-- **C12 (define-once, histories).** Once a handle is defined, EVERY later history of `define` attempts and parses —
+    through the handle or any clone, in any order, any number of times — refuses each attempt and gives each parse the
+    result of the FIRST definition: a refused `define` leaves nothing behind. -/
+theorem c12_first_definition_wins (n : Nat) (env : Env) (m : Mode) (g : G) (ops : List HOp) :
+    hrun n env m (.defined g) ops = ops.map fun
+      | .define _ => .refused 77
+      | .parse toks => .parsed (parseTop n { env with toks := toks, defs := [g] } m (.call 0)) := by
+  induction ops with
+  | nil => rfl
+  | cons op ops ih => cases op <;> simp [hrun, hstep, Cell.define, Cell.defs, ih]
+
+/-- before the definition every parse through the handle is the loud refusal of an undefined reference, and the
+    first `define` is accepted whatever was parsed before it -/
+theorem c12_undefined_history (n : Nat) (env : Env) (m : Mode) (inputs : List (List Nat)) (g : G) (ops : List HOp) :
+    hrun (n + 2) env m .empty (inputs.map .parse ++ .define g :: ops) =
+      inputs.map (fun _ => .parsed (.panic pUndefined)) ++ .defined :: hrun (n + 2) env m (.defined g) ops := by
+  induction inputs with
+  | nil => simp [hrun, hstep, Cell.define]
+  | cons i is ih =>
+    simp only [List.map_cons, List.cons_append, hrun, hstep, Cell.defs]
+    rw [ih]
+    have hp : parseTop (n + 2) { env with toks := i, defs := [] } m (.call 0) = .panic pUndefined := by
+      have h := c12_undefined_panics n { env with toks := i, defs := [] } m 0 St.init rfl
+      simp only [parseTop]
+      rw [show run (n + 2) { env with toks := i, defs := [] } m (.thenIgnore (.call 0) .end_) St.init
+            = (run (n + 1) { env with toks := i, defs := [] } m (.call 0) St.init).andThen fun va st1 =>
+              (run (n + 1) { env with toks := i, defs := [] } .check .end_ st1).andThen fun _ st2 => .ok va st2 from rfl, h]
+      rfl
+    rw [hp]
+
 /-- non-vacuity: `expr = '(' expr ')' | 'x'` on "((x))" equals its unrolling -/
 example :
     let defs : List G := [.or_ (.delimitedBy (.call 0) (.just [40]) (.just [41])) (.just [120])]
@@ -85,6 +139,8 @@ example (toks : List Nat) (m : Mode) :
 #print axioms c12_unroll_closed
 #print axioms c12_undefined_panics
 #print axioms c12_define_once
+#print axioms c12_first_definition_wins
+#print axioms c12_undefined_history
 #print axioms c12_guarded_terminates
 #print axioms c12_unguarded_left_recursion_diverges
 end Chumsky
